@@ -61,12 +61,44 @@ def walk(fb, name, found, n=3):
                 if not is_name(a[1]):
                     return absint.UNKNOWN
                 return machine.some(Tok("slot", a0.tag)) if a0.tag in found else machine.none()
+            if c.endswith("HashMap::entry") and len(a) > 1:
+                # the entry API: Occupied / Vacant as the frame binds the name or not; what is done with the entry is recorded below
+                ev["lookups"].append(a0.tag)
+                if not is_name(a[1]):
+                    return absint.UNKNOWN
+                e = absint.Enum(0 if a0.tag in found else 1, [Tok("entry", a0.tag)])
+                e.name = "Occupied" if a0.tag in found else "Vacant"
+                return e
             if callee_matches(tt, "HashMap::insert", "HashMap::entry", "HashMap::remove"):
                 ev["inserts"].append((c.rsplit("::", 1)[-1], a0.tag, is_name(a[1]) if len(a) > 1 else None,
                                       a[2] is VALUE if len(a) > 2 else None))
                 return machine.none()
             if callee_matches(tt, "Ref::map", "RefMut::map", "Ref::map_val") and len(a) > 1:
                 return mc.call_value(a[1], [a0])
+        end = c.rsplit("::", 1)[-1]
+        ent = a0 if isinstance(a0, Tok) and a0.kind == "entry" else (
+            a0.fields[0] if isinstance(a0, absint.Enum) and a0.fields and isinstance(a0.fields[0], Tok) and a0.fields[0].kind == "entry" else None)
+        if ent is not None and ("Entry" in c or "entry::" in c):
+            occupied = ent.tag in found
+            if end in ("insert", "insert_entry") and len(a) > 1:
+                ev["inserts"].append(("insert", ent.tag, True, a[1] is VALUE))
+                return Tok("slot", ent.tag) if end == "insert" and not occupied else (Tok("old-value", ent.tag) if end == "insert" else ent)
+            if end in ("or_insert", "or_insert_with", "or_default", "or_insert_with_key"):
+                if not occupied:
+                    v = a[1] if end == "or_insert" else (mc.call_value(a[1], []) if end == "or_insert_with" else absint.UNKNOWN)
+                    ev["inserts"].append(("insert", ent.tag, True, v is VALUE))
+                return Tok("slot", ent.tag)
+            if end in ("get_mut", "into_mut", "get"):
+                return Tok("slot", ent.tag)
+            if end == "and_modify" and len(a) > 1:
+                if occupied:
+                    mc.call_value(a[1], [Tok("slot", ent.tag)])
+                return a0
+            if end == "key":
+                return NAME
+            if end in ("remove", "remove_entry"):
+                ev["inserts"].append(("remove", ent.tag, True, None))
+                return Tok("old-value", ent.tag)
         return NOT
 
     def on_store(target, place, val, b):
@@ -81,6 +113,19 @@ def walk(fb, name, found, n=3):
     out = dict(ev)
     if isinstance(res, absint.Enum):
         out["result"] = getattr(res, "name", None) or str(res.variant)
+        names = set()
+
+        def kinds(v, d=0):
+            if isinstance(v, absint.Enum) and d < 8:
+                if getattr(v, "name", None):
+                    names.add(v.name)
+                for x in v.fields:
+                    kinds(x, d + 1)
+            elif isinstance(v, list) and d < 8:
+                for x in v:
+                    kinds(x, d + 1)
+        kinds(res)
+        out["result_variants"] = sorted(names)
         toks = []
 
         def coll(v, d=0):
@@ -117,8 +162,7 @@ def table(ctx, fb, rule, name, n=3):
         key = "%s/bound-in=%s" % (name, sorted(found))
         ctx.inst(rule, key, {k: (v if not isinstance(v, list) else [list(x) if isinstance(x, tuple) else x for x in v]) for k, v in r.items()})
         if "stuck" in r:
-            ctx.oblige(False)
-            ctx.report(rule, key, "cannot follow LexicalScope::%s on a chain where frames %s bind the name (%s)" % (name, sorted(found), r["stuck"]), where_of(f))
+            ctx.undecided(rule, key, "cannot follow LexicalScope::%s on a chain where frames %s bind the name (%s)" % (name, sorted(found), r["stuck"]), where_of(f))
             continue
         if name == "set":
             # overwriting by re-inserting under the same name into the frame that already binds it is the same effect
